@@ -15,12 +15,15 @@ import (
 type ev map[string]any
 
 type tracer struct {
-	w   *bufio.Writer
-	t   int // current trace id
-	seq int
+	w    *bufio.Writer
+	t    int // current trace id
+	seq  int
+	sync bool // VH_SYNC=1: every event is written out at once, so that the trace survives the death of the process
 }
 
-func newTracer(w io.Writer) *tracer { return &tracer{w: bufio.NewWriterSize(w, 1<<20)} }
+func newTracer(w io.Writer) *tracer {
+	return &tracer{w: bufio.NewWriterSize(w, 1<<20), sync: os.Getenv("VH_SYNC") == "1"}
+}
 
 // begin starts a new trace; the Init event carries the configuration.
 func (tr *tracer) begin(fields ev) {
@@ -41,6 +44,9 @@ func (tr *tracer) emit(name string, fields ev) {
 	}
 	tr.w.Write(b)
 	tr.w.WriteByte('\n')
+	if tr.sync {
+		tr.w.Flush()
+	}
 }
 
 func (tr *tracer) flush() { tr.w.Flush() }
